@@ -1,6 +1,7 @@
 package main
 
 import (
+	"fmt"
 	"math/rand"
 	"os"
 	"path/filepath"
@@ -166,7 +167,20 @@ func (namesStream) Execute(c Case) {
 					"dirs": c["dirs"], "name": c["name"], "written": hxList(written),
 					"obs": map[string]any{"panic": false, "err": e != nil, "changed": hxList(ch), "newdirs": hxList(nd)}}
 			}
-			c["spawn"] = []Case{mk("remove", written, rerr, ch2, nd2), mk("remove2", nil, rerr2, ch3, nil)}
+			// writing the very same Spec again after the removal (no refresh in between) re-creates the file
+			var err4 error = fmt.Errorf("first write failed")
+			var ch4, nd4 []string
+			if err == nil {
+				err4 = cache.WriteSpec(spec, name)
+				after4 := snapshotTree(namesRoot)
+				ch4, nd4 = diffTree(after3, after4)
+				_ = cache.RemoveSpec(name)
+			}
+			sp := []Case{mk("remove", written, rerr, ch2, nd2), mk("remove2", nil, rerr2, ch3, nil)}
+			if err == nil && rerr == nil {
+				sp = append(sp, mk("rewrite", written, err4, ch4, nd4))
+			}
+			c["spawn"] = sp
 		}
 	case "remove":
 		// derived case (replay only): re-run the parent write and pick the recorded follow-up
